@@ -843,8 +843,74 @@ pub fn c09_halfclose_while_output_blocked(rec: &mut Rec, rng: &mut Rng, how: Shu
     sim.w.teardown();
 }
 
+/// One client pipelines MANY small requests and the application answers none of them for a long time (however late
+/// the application answers …): polling keeps returning normally, the other client is served, and once everything is
+/// answered the responses arrive in order.
+pub fn c09_many_in_flight(rec: &mut Rec, rng: &mut Rng, n_req: usize) {
+    rec.case("many-unanswered-in-flight");
+    rec.nontrivial();
+    let mut sim = Sim::new(rec, Cfg::base("C09"));
+    let a = sim.connect(rec);
+    let b = sim.connect(rec);
+    sim.poll(rec);
+    sim.poll(rec);
+    let mut sent = 0;
+    while sent < n_req {
+        let k = (n_req - sent).min(rng.range(20, 50));
+        let mut bytes = vec![];
+        for _ in 0..k {
+            let j = sim.plans[a].next_req;
+            sim.plans[a].next_req += 1;
+            let t = tag(a, j);
+            bytes.extend_from_slice(format!("GET {} HTTP/1.1\r\n\r\n", t).as_bytes());
+            sim.plans[a].sent.push(t);
+        }
+        sim.w.send(rec, a, &bytes);
+        sent += k;
+        for _ in 0..3 {
+            sim.poll(rec);
+        }
+    }
+    for _ in 0..(n_req / 30 + 4) {
+        sim.poll(rec);
+    }
+    // the other client does a round trip meanwhile
+    sim.send_next(rec, rng, b);
+    while !sim.plans[b].outq.is_empty() {
+        sim.send_next(rec, rng, b);
+    }
+    for _ in 0..8 {
+        sim.poll(rec);
+        if let Some(k) = sim.w.held.iter().position(|h| h.client == Some(b)) {
+            let t = sim.w.held[k].tag.clone();
+            let spec = RespSpec { v11: true, code: 200, ops: vec![BOp::Body(format!("{}:", t).into_bytes())] };
+            sim.plans[b].answered.push(t);
+            sim.w.respond(rec, k, &spec);
+        }
+        sim.w.client_read(rec, b);
+    }
+    let (resps, _) = split_responses(&sim.w.clients[b].received);
+    if resps.iter().filter(|(c, _)| *c == 200).count() != sim.plans[b].answered.len() || sim.plans[b].answered.is_empty() {
+        rec.oracle_fail("C09", &format!("a second client was not served while {} requests of another client are unanswered", n_req), &sim.w.log);
+    }
+    // now the late answers, small ones, in order
+    while let Some(k) = sim.w.held.iter().position(|h| h.client == Some(a)) {
+        let t = sim.w.held[k].tag.clone();
+        let spec = RespSpec { v11: true, code: 200, ops: vec![BOp::Body(format!("{}:", t).into_bytes())] };
+        sim.plans[a].answered.push(t);
+        sim.w.respond(rec, k, &spec);
+    }
+    sim.settle(rec, rng);
+    common_checks(rec, &mut sim, "C09");
+    check_yield_once(rec, &sim);
+    sim.w.teardown();
+}
+
 pub fn c09(rec: &mut Rec, rng: &mut Rng, thorough: bool) {
     regress_f2(rec, rng);
+    for n_req in [70usize, 130, if thorough { 700 } else { 260 }] {
+        c09_many_in_flight(rec, rng, n_req);
+    }
     for how in [Shutdown::Both, Shutdown::Write, Shutdown::Read] {
         c09_halfclose_while_output_blocked(rec, rng, how);
     }
@@ -1232,6 +1298,45 @@ pub fn c18_all_ready(rec: &mut Rec, rng: &mut Rng, n_clients: usize, extra_waiti
     sim.w.teardown();
 }
 
+/// "Before it is signalled, its presence changes nothing": a server WITH a kill switch serves a few generations of
+/// clients (connect, request, answer, leave, the next one reusing the descriptor numbers) exactly like one without:
+/// every request is yielded, no poll reports shutdown.
+pub fn c18_unsignalled(rec: &mut Rec, rng: &mut Rng) {
+    rec.case("kill-switch-never-signalled");
+    rec.nontrivial();
+    let mut cfg = Cfg::base("C18");
+    cfg.with_kill = true;
+    cfg.max_clients = 12;
+    let mut sim = Sim::new(rec, cfg);
+    let mut expected = 0usize;
+    for _gen in 0..4 {
+        let i = sim.connect(rec);
+        sim.poll(rec);
+        sim.send_next(rec, rng, i);
+        while !sim.plans[i].outq.is_empty() {
+            sim.send_next(rec, rng, i);
+        }
+        expected += 1;
+        for _ in 0..6 {
+            sim.poll(rec);
+        }
+        while !sim.w.held.is_empty() {
+            sim.respond(rec, rng, 0);
+        }
+        for _ in 0..3 {
+            sim.poll(rec);
+        }
+        sim.w.client_read(rec, i);
+        sim.w.close(rec, i);
+        sim.poll(rec);
+        sim.poll(rec);
+    }
+    if sim.w.spurious_shutdowns > 0 || sim.w.yielded.len() != expected {
+        rec.oracle_fail("C18", &format!("with a kill switch that was never signalled: {} polls reported shutdown, {} of {} requests were yielded", sim.w.spurious_shutdowns, sim.w.yielded.len(), expected), &sim.w.log);
+    }
+    sim.w.teardown();
+}
+
 /// "with unanswered requests": several clients sent requests (yielded, not answered) and then went away — their
 /// connections are closed but kept, and each raises a hang-up on every poll; possibly a further client is waiting. The
 /// kill switch signalled in that state must be seen by the very next poll.
@@ -1349,6 +1454,9 @@ pub fn c18(rec: &mut Rec, rng: &mut Rng, thorough: bool) {
     }
     for n_clients in [1usize, 2, 3] {
         c18_unsent_output(rec, rng, n_clients);
+    }
+    for _ in 0..4 {
+        c18_unsignalled(rec, rng);
     }
     for (gone, open, extra) in [(1usize, 0usize, true), (2, 0, false), (3, 2, true), (5, 5, true), (10, 0, true), (9, 1, false)] {
         c18_closed_unanswered(rec, rng, gone, open, extra);
